@@ -1,3 +1,193 @@
-import Verif.C09.Model
+import Verif.C09.Refine
+import Verif.C09.NoPanic
+import Verif.C09.Consistent
+import Verif.C09.ParserLemmas
+import Verif.C09.Spelling
+/-
+C09 — Pattern bindings: alternatives are atomic, names bind consistently.
+
+Property theorems over the model of pattern/match.go + pattern/parser.go (Model.lean):
+
+* `impl_refines_spec`  after a successful match of the state machine (mutable State, stack of
+                       64-bit masks, push/pop/merge) the visible bindings are exactly those of
+                       the specification's successful path (immutable environments: Or = first
+                       alternative that succeeds from the incoming environment, Not = environment
+                       unchanged). `impl_fail_spec`: and it fails exactly when the specification does.
+* `repeat_consistent`  the final State is one assignment under which every binding occurrence on
+                       the successful path agrees (`Sat`); `astEq_sound` (AstEq.lean) says what
+                       agreeing means: structural equality up to the transparent wrappers.
+* `spellings_agree`    desugaring the shorthand (`x`, `x@(…)`) into the explicit Binding form
+                       changes neither Pattern.Bindings nor any match result.
+* `parse_wfIdx`        the parser's output satisfies the index hypothesis of the theorems above.
+* `no_panic`           "binding already created" is unreachable for well-formed patterns.
+
+Helper lemmas: Lemmas.lean (masks, pop, frame invariant), Refine.lean (`impl_rel`),
+NoPanic.lean, Consistent.lean, ParserLemmas.lean, Spelling.lean.
+-/
 namespace Verif.C09
+
+/-! ### alternatives are atomic -/
+
+/-- Visible bindings after a successful match are exactly those of the successful path. -/
+theorem impl_refines_spec (mp : List String) (p : Pat) (t : Tree) (σ : Env) (n : Nat)
+    (hwf : wfIdx mp p = true) (h : implMatch mp p t = .done true σ n) : specMatch p t = some σ := by
+  have ih := impl_rel mp p t (MState.push { st := Env.empty, stack := [] }) 0 [] hwf rfl
+  unfold implMatch at h
+  unfold specMatch
+  cases hr : impl mp p t (MState.push { st := Env.empty, stack := [] }) with
+  | ok v s =>
+    rw [hr] at ih h
+    obtain ⟨_, hsp⟩ := ih
+    simp only [push_st] at hsp
+    simp only [Outcome.done.injEq] at h
+    rw [hsp]
+    simp only [← h.2.1, merge_st]
+  | fail s => rw [hr] at h; simp at h
+  | panic k => rw [hr] at h; simp at h
+
+/-- The state machine fails exactly when the specification has no match. -/
+theorem impl_fail_spec (mp : List String) (p : Pat) (t : Tree) (σ : Env) (n : Nat)
+    (hwf : wfIdx mp p = true) (h : implMatch mp p t = .done false σ n) : specMatch p t = none := by
+  have ih := impl_rel mp p t (MState.push { st := Env.empty, stack := [] }) 0 [] hwf rfl
+  unfold implMatch at h
+  unfold specMatch
+  cases hr : impl mp p t (MState.push { st := Env.empty, stack := [] }) with
+  | ok v s => rw [hr] at h; simp at h
+  | fail s =>
+    rw [hr] at ih
+    obtain ⟨_, hsp⟩ := ih
+    simp only [push_st] at hsp
+    rw [hsp]
+  | panic k => rw [hr] at h; simp at h
+
+/-! Non-vacuity. DESIGN.md section 6 row 10: `(Or (BinaryExpr (Or x@(Ident _) (BasicLit _ _)) "+" _)
+(BinaryExpr _ "-" _))` on `a - 1`: the first alternative binds `x` inside a nested Or and then
+fails on the operator; the match succeeds with no visible binding. Row 11: a Not operand that
+binds `f` and then fails. -/
+
+def exIdent (s : String) : Tree := .node "Ident" .E ["Name"] [.str s]
+def exAminus1 : Tree :=
+  .node "BinaryExpr" .E ["X", "Op", "Y"] [exIdent "a", .tok 13, .node "BasicLit" .E ["Kind", "Value"] [.tok 5, .str "1"]]
+def exRow10 : Pat :=
+  .or [.node "BinaryExpr" ["X", "Op", "Y"]
+         [.or [.binding "x" 0 (.node "Ident" ["Name"] [.any]), .node "BasicLit" ["Kind", "Value"] [.any, .any]],
+          .str "+", .any],
+       .node "BinaryExpr" ["X", "Op", "Y"] [.any, .str "-", .any]]
+
+example : wfIdx ["x"] exRow10 = true := by decide
+example : (match implMatch ["x"] exRow10 exAminus1 with
+    | .done true σ n => (σ "x").isNone && n == 1 | _ => false) = true := by rfl
+example : (match specMatch exRow10 exAminus1 with | some σ => (σ "x").isNone | none => false) = true := by rfl
+
+def exRow11 : Pat :=
+  .node "BinaryExpr" ["X", "Op", "Y"]
+    [.any, .any, .not (.node "CallExpr" ["Fun", "Args"]
+      [.binding "f" 0 (.node "Ident" ["Name"] [.any]),
+       .list (.node "BasicLit" ["Kind", "Value"] [.str "INT", .any]) (.list .gonil .gonil)])]
+def exAplusGx : Tree :=
+  .node "BinaryExpr" .E ["X", "Op", "Y"] [exIdent "a", .tok 12,
+    .node "CallExpr" .E ["Fun", "Args"] [exIdent "g", .slice .E false [exIdent "x"]]]
+example : (match implMatch ["f"] exRow11 exAplusGx with
+    | .done true σ n => (σ "f").isNone && n == 1 | _ => false) = true := by rfl
+
+/-! ### names bind consistently -/
+
+/-- The final State of a successful match is a single assignment under which every binding
+occurrence on the successful path agrees: the occurrence that created `x` holds `σ x`, every
+other occurrence matched `σ x` (`astEq`, see `astEq_sound`). -/
+theorem repeat_consistent (mp : List String) (p : Pat) (t : Tree) (σ : Env) (n : Nat)
+    (hwf : wfIdx mp p = true) (hsf : selfFree p = true)
+    (h : implMatch mp p t = .done true σ n) : ∃ v, Sat σ p t v := by
+  have hs := impl_refines_spec mp p t σ n hwf h
+  unfold specMatch at hs
+  cases hr : spec p t Env.empty with
+  | none => simp [hr] at hs
+  | some r =>
+    obtain ⟨v, e⟩ := r
+    simp only [hr, Option.some.injEq] at hs
+    subst hs
+    exact ⟨v, spec_sat e p t Env.empty v e hsf hr (Env.le_refl e)⟩
+
+/-! Non-vacuity: `(CallExpr _ [x x])` on `f(a, a)` matches (and binds x), on `f(a, b)` it does not. -/
+def exXX : Pat := .node "CallExpr" ["Fun", "Args"]
+  [.any, .list (.binding "x" 0 .gonil) (.list (.binding "x" 0 .gonil) (.list .gonil .gonil))]
+def exCall (a b : String) : Tree :=
+  .node "CallExpr" .E ["Fun", "Args"] [exIdent "f", .slice .E false [exIdent a, exIdent b]]
+example : selfFree exXX = true ∧ wfIdx ["x"] exXX = true := by decide
+example : (match implMatch ["x"] exXX (exCall "a" "a") with
+    | .done true σ _ => (σ "x").isSome | _ => false) = true := by rfl
+example : (match implMatch ["x"] exXX (exCall "a" "b") with
+    | .done false _ _ => true | _ => false) = true := by rfl
+
+/-! ### the two spellings -/
+
+/-- `(Binding "name" pattern)` and `name@pattern` (and `(Binding "name" nil)` / `name`) are
+interchangeable: desugaring the shorthand gives the same Pattern.Bindings and a pattern with the
+same match results on every tree — or both fail to parse. -/
+theorem spellings_agree (s : Sx) :
+    match parse s, parse s.toExplicit with
+    | .ok (p, bs), .ok (p', bs') => bs' = bs ∧ ∀ t, implMatch bs p' t = implMatch bs p t
+    | .error _, .error _ => True
+    | _, _ => False := by
+  have h := elab_toExplicit s []
+  unfold parse
+  cases h1 : elabSx s [] with
+  | error e =>
+    rw [h1] at h
+    cases h2 : elabSx s.toExplicit [] with
+    | error e' => trivial
+    | ok r => rw [h2] at h; simp [ERel] at h
+  | ok r =>
+    obtain ⟨p, bs⟩ := r
+    rw [h1] at h
+    cases h2 : elabSx s.toExplicit [] with
+    | error e' => rw [h2] at h; simp [ERel] at h
+    | ok r' =>
+      obtain ⟨p', bs'⟩ := r'
+      rw [h2] at h
+      obtain ⟨hn, hb⟩ := h
+      subst hb
+      simp only []
+      split
+      · trivial
+      · exact ⟨rfl, fun t => by rw [← implMatch_normP bs p', ← hn, implMatch_normP]⟩
+
+/-! Non-vacuity (DESIGN.md section 6 row 9): `(CallExpr a@(Ident _) [b@(Ident _)])` and its
+explicit form get the same indices a ↦ 0, b ↦ 1. -/
+def exSx : Sx := .nodeS "CallExpr" [.at "a" (.nodeS "Ident" [.blank]), .arr [.at "b" (.nodeS "Ident" [.blank])]]
+example : (match parse exSx, parse exSx.toExplicit with
+    | .ok (.node _ _ [.binding "a" 0 _, .list (.binding "b" 1 _) _], ["a", "b"]),
+      .ok (.node _ _ [.binding "a" 0 _, .list (.binding "b" 1 _) _], ["a", "b"]) => true
+    | _, _ => false) = true := by rfl
+
+/-- (re-exported from ParserLemmas.lean) every Binding of a parsed pattern carries the index under
+which Pattern.Bindings lists its name, below 64. -/
+example (s : Sx) (p : Pat) (bs : List String) (h : parse s = .ok (p, bs)) : wfIdx bs p = true :=
+  parse_wfIdx s p bs h
+
+/-! ### no "binding already created" -/
+
+/-- (proved in NoPanic.lean) restated: a well-formed, index-correct pattern never panics with
+"binding already created". -/
+example (mp : List String) (p : Pat) (t : Tree) (hwf : wf [] p = true) (hidx : wfIdx mp p = true) :
+    implMatch mp p t ≠ .panic .created := no_panic mp p t hwf hidx
+
+/-! Non-vacuity: `(Or (BinaryExpr (Or x@(Ident _) (BasicLit _ _)) "+" _) x@(BinaryExpr _ "-" _))`
+(row 10, second witness) is well-formed — `x@` occurs in two alternatives — and matches `a - 1`
+binding `x` to the whole expression; the ill-formed `(BinaryExpr x@(Ident _) _ x@(Ident _))` does panic. -/
+def exRow10b : Pat :=
+  .or [.node "BinaryExpr" ["X", "Op", "Y"]
+         [.or [.binding "x" 0 (.node "Ident" ["Name"] [.any]), .node "BasicLit" ["Kind", "Value"] [.any, .any]],
+          .str "+", .any],
+       .binding "x" 0 (.node "BinaryExpr" ["X", "Op", "Y"] [.any, .str "-", .any])]
+example : wf [] exRow10b = true ∧ wfIdx ["x"] exRow10b = true := by decide
+example : (match implMatch ["x"] exRow10b exAminus1 with
+    | .done true σ _ => (σ "x").isSome | _ => false) = true := by rfl
+def exRebind : Pat := .node "BinaryExpr" ["X", "Op", "Y"]
+  [.binding "x" 0 (.node "Ident" ["Name"] [.any]), .any, .binding "x" 0 (.node "Ident" ["Name"] [.any])]
+example : wf [] exRebind = false := by decide
+example : (match implMatch ["x"] exRebind
+      (.node "BinaryExpr" .E ["X", "Op", "Y"] [exIdent "a", .tok 12, exIdent "b"]) with
+    | .panic .created => true | _ => false) = true := by rfl
+
 end Verif.C09
